@@ -1312,11 +1312,12 @@ class Reaction(Object):
                     )
                 )
             else:
-                # Reset them with add_metabolites
-                mets_to_reset = {
-                    key: old_coefficients.get(model.metabolites.get_by_any(key)[0], 0)
-                    for key in metabolites_to_add.keys()
-                }
+                # Reset them with add_metabolites, using the objects the
+                # reaction holds (a key may be an id or a copy of them)
+                mets_to_reset = {}
+                for met_id, metabolite, _ in resolved:
+                    metabolite = _id_to_metabolites.get(met_id, metabolite)
+                    mets_to_reset[metabolite] = old_coefficients.get(metabolite, 0)
 
                 context(
                     partial(
